@@ -107,6 +107,18 @@ fn hop_head(h: &Hop) -> Vec<u8> {
         Some("utf8host") => head.extend(b"Location: http://b\xc3\xbccher.test/x\r\n"),
         Some("kelvin") => head.extend(b"Location: //\xe2\x84\xaa.test/\r\n"),
         Some("latin1") => head.extend(b"Location: /caf\xe9?x=1\r\n"),
+        // long and non-textual, the first obs-text byte at every alignment (an error message quoting it must cope)
+        Some(k) if k.starts_with("longhi") => {
+            head.extend(b"Location: /");
+            head.extend(std::iter::repeat(b'a').take(k.len() - 6));
+            head.extend(std::iter::repeat(0xE5u8).take(130));
+            head.extend(b"\r\n");
+        }
+        Some(k) if k.starts_with("asciihi") => {
+            head.extend(b"Location: /");
+            head.extend(std::iter::repeat(b'p').take(250 + (k.len() - 7)));
+            head.extend(b"\xff\xfe\r\n");
+        }
         Some(_) => head.extend(b"Location: http://[zz]/\r\n"),
         None => {
             head.extend(b"Location: ");
@@ -138,6 +150,10 @@ pub struct ChainOpt {
     pub interim: bool,
     /// the first response is already there while the first request awaits 100-continue (Expect rejected by the answer)
     pub answer_in_await: bool,
+    /// the original request carries its own Host header (virtual host), naming another host than its URI
+    pub explicit_host: bool,
+    /// the original request is HTTP/1.0 (GET / HEAD / POST only)
+    pub ver10: bool,
 }
 
 const ORIG_AUTH: [&[u8]; 2] = [b"Basic b3JpZzpwdw==", b"Bearer second-line"];
@@ -161,6 +177,12 @@ pub fn run_chain_opt(t: &mut Tracer, orig: &Value, method: &str, same_host: bool
     }
     if body_m {
         b = b.header("content-length", "0");
+    }
+    if opt.explicit_host {
+        b = b.header("host", "api.test:8443");
+    }
+    if opt.ver10 && matches!(method, "GET" | "HEAD" | "POST") {
+        b = b.version(ureq_proto::http::Version::HTTP_10);
     }
     if hops.len() % 3 == 1 || orig["port"] != 0 {
         // the first request negotiates with Expect: 100-continue (and, for bodiless methods, carries it for nothing)
@@ -345,7 +367,7 @@ fn bad_ref() -> Value {
 
 fn random_ref(rng: &mut StdRng) -> Value {
     let schemes = ["http", "https"];
-    let hosts = ["a.test", "b.test", "sub.a.test", "127.0.0.1", "10.1.2.3", "[::1]"];
+    let hosts = ["a.test", "b.test", "sub.a.test", "127.0.0.1", "10.1.2.3", "api.test"];
     let ports = [0u64, 0, 8080, 80, 443];
     let qs = ["-", "-", "k=1", "a=b&c=d"];
     let seg_pool = ["p", "q", ".", "..", "long-segment_1", "", "x"];
@@ -410,7 +432,9 @@ fn replay_redirect_scripts(o: &Opts, t: &mut Tracer) -> u64 {
     n
 }
 
-pub fn c13_14(o: &Opts, t: &mut Tracer) -> Value {
+/// `own_host`: originals may carry their own Host header naming another host than the URI (C13 only: what becomes of
+/// that header on the redirected request is outside C14's quantifier — see DESIGN.md, observation OBS3)
+pub fn c13_14(o: &Opts, t: &mut Tracer, own_host: bool) -> Value {
     let nscripts = replay_redirect_scripts(o, t);
     let mut rng = rng_for(o.seed, 0xC13);
     let schemes = ["http", "https"];
@@ -428,7 +452,7 @@ pub fn c13_14(o: &Opts, t: &mut Tracer) -> Value {
         let mut hops = vec![];
         for k in 0..nh {
             let last = k + 1 == nh;
-            let bad = if last && i % 9 == 0 { Some(["missing", "nontext", "ipv6", "spacehost", "utf8path", "utf8host", "kelvin", "latin1"][(i / 9) % 8]) } else { None };
+            let bad = if last && i % 9 == 0 { Some(["missing", "nontext", "ipv6", "spacehost", "utf8path", "utf8host", "kelvin", "latin1", "longhi", "longhi1", "longhi12", "asciihi", "asciihi1", "asciihi12", "asciihi123", "asciihi1234"][(i / 9) % 16]) } else { None };
             hops.push(Hop {
                 status: statuses[rng.gen_range(0..8)],
                 r: if bad.is_some() { bad_ref() } else { random_ref(&mut rng) },
@@ -440,7 +464,7 @@ pub fn c13_14(o: &Opts, t: &mut Tracer) -> Value {
         }
         let m = methods[rng.gen_range(0..9)];
         t.sig(format!("rnd/{}/{}/{}", m, nh, i % 9 == 0));
-        let opt = ChainOpt { despite: rng.gen_bool(0.15), despite_hops: rng.gen_bool(0.15), readd: rng.gen_bool(0.25), interim: rng.gen_bool(0.15), answer_in_await: rng.gen_bool(0.3) };
+        let opt = ChainOpt { despite: rng.gen_bool(0.15), despite_hops: rng.gen_bool(0.15), readd: rng.gen_bool(0.25), interim: rng.gen_bool(0.15), answer_in_await: rng.gen_bool(0.3), explicit_host: own_host && rng.gen_bool(0.2), ver10: rng.gen_bool(0.2) };
         run_chain_opt(t, &orig, m, rng.gen_bool(0.6), &hops, "random-chain", opt);
     }
     // directed: leave and return, scheme downgrade on the same host, same host different port
@@ -459,10 +483,14 @@ pub fn c13_14(o: &Opts, t: &mut Tracer) -> Value {
             run_chain(t, &a("https", "127.0.0.1", 0), "GET", same, &[h(abs("https", "10.1.2.3", 0)), h(absp.clone()), h(abs("https", "127.0.0.1", 0))], "ip-literal-leave-and-return");
             run_chain(t, &a("http", "[::1]", 8080), "GET", same, &[h(abs("http", "[::2]", 8080)), h(abs("http", "127.0.0.1", 8080)), h(abs("http", "[::1]", 8080))], "ipv6-literal-leave-and-return");
             for opt in [ChainOpt { readd: true, ..Default::default() }, ChainOpt { despite_hops: true, ..Default::default() }, ChainOpt { interim: true, ..Default::default() },
-                        ChainOpt { readd: true, despite_hops: true, interim: true, despite: true, answer_in_await: false }, ChainOpt { answer_in_await: true, ..Default::default() }] {
+                        ChainOpt { readd: true, despite_hops: true, interim: true, despite: true, answer_in_await: false, explicit_host: false, ver10: false }, ChainOpt { answer_in_await: true, ..Default::default() },
+                        ChainOpt { explicit_host: own_host, ..Default::default() }, ChainOpt { ver10: true, despite_hops: true, ..Default::default() }] {
                 run_chain_opt(t, &a("https", "a.test", 0), "GET", same, &[h(absp.clone()), h(abs("https", "b.test", 0)), h(rel.clone()), h(abs("https", "a.test", 0))], "caller-options", opt);
                 run_chain_opt(t, &a("http", "a.test", 0), "POST", same, &[h(absp.clone()), h(rel.clone())], "caller-options", opt);
             }
+            // the caller's own Host header says "api.test": that is not the host the request was sent to
+            run_chain_opt(t, &a("https", "a.test", 0), "GET", same, &[h(abs("https", "api.test", 0)), h(absp.clone()), h(abs("https", "b.test", 0)), h(abs("https", "api.test", 8443))], "explicit-host-header",
+                          ChainOpt { explicit_host: own_host, ..Default::default() });
             t.sig(format!("directed/{}/{}", same, st));
         }
     }
@@ -489,8 +517,15 @@ pub fn c15(o: &Opts, t: &mut Tracer) -> Value {
                         t.class("hop:to-the-same-uri");
                     }
                     let despite = !matches!(m, "POST" | "PUT" | "PATCH") && (st as usize + n) % 4 == 1;
-                    let opt = ChainOpt { despite, despite_hops: (st as usize + n) % 5 == 2, readd: (st as usize + n) % 7 == 3, interim: (st as usize + n / 4) % 3 == 1, answer_in_await: (st as usize + n / 2) % 2 == 0 };
-                    run_chain_opt(t, &orig, m, same, &[Hop { status: st, r, bad: None, frag: false, decoys: 0, with_body }], "c15", opt);
+                    let opt = ChainOpt { despite, despite_hops: (st as usize + n) % 5 == 2, readd: (st as usize + n) % 7 == 3, interim: (st as usize + n / 4) % 3 == 1, answer_in_await: (st as usize + n / 2) % 2 == 0, explicit_host: false, ver10: (st as usize + n) % 11 == 5 };
+                    let mut hops = vec![Hop { status: st, r, bad: None, frag: false, decoys: 0, with_body }];
+                    if (st as usize + n) % 4 == 2 {
+                        // the table applies hop by hop: the method of a later hop is decided from the method the previous hop produced
+                        hops.push(Hop { status: [302u16, 307, 301, 308, 303][n % 5], r: mk_ref("abspath", "", "", 0, &["again"], "-"), bad: None, frag: false, decoys: 0, with_body: false });
+                        hops.push(Hop { status: [307u16, 302][n % 2], r: mk_ref("relpath", "", "", 0, &["once-more"], "-"), bad: None, frag: false, decoys: 0, with_body: false });
+                        t.class("hop:chain-in-c15");
+                    }
+                    run_chain_opt(t, &orig, m, same, &hops, "c15", opt);
                     n += 1;
                 }
             }
